@@ -26,7 +26,9 @@ func (b Branch) Target(ctx context.Context, height int) (*big.Int, error) {
 		return nil, errors.Wrap(err, "first header stats")
 	}
 
-	timeSpan := lastTime - firstTime
+	// The time span is signed. The median time of the last blocks can be before the median time
+	// of the first blocks.
+	timeSpan := int64(lastTime) - int64(firstTime)
 
 	// Apply time span limits
 	if timeSpan < 72*600 {
@@ -43,9 +45,18 @@ func (b Branch) Target(ctx context.Context, height int) (*big.Int, error) {
 	// Projected Work (PW) = (W * 600) / TS.
 	projected := &big.Int{}
 	projected.Mul(work, big.NewInt(600))
-	projected.Div(projected, big.NewInt(int64(timeSpan)))
+	projected.Div(projected, big.NewInt(timeSpan))
 
-	target := bitcoin.ConvertToWork(projected)
+	if projected.Sign() <= 0 {
+		return new(big.Int).Set(bitcoin.MaxWork), nil
+	}
+
+	// Target (T) = (2^256 - PW) / PW. This is the two's complement division the network uses,
+	// which is one less than 2^256 / PW, and is not the same as 2^256 / (PW + 1).
+	target := &big.Int{}
+	target.Lsh(big.NewInt(1), 256)
+	target.Sub(target, projected)
+	target.Div(target, projected)
 
 	if target.Cmp(bitcoin.MaxWork) > 0 {
 		target.Set(bitcoin.MaxWork)
@@ -82,8 +93,22 @@ func (b Branch) MedianTimeAndWork(ctx context.Context,
 		height--
 	}
 
-	// Sort by time
-	sort.Sort(list)
+	if count == 3 {
+		// Select the median the same way the network does (GetSuitableBlock), with three
+		// conditional swaps. A general sort picks a different block when timestamps are equal.
+		if list[0].time > list[2].time {
+			list.Swap(0, 2)
+		}
+		if list[0].time > list[1].time {
+			list.Swap(0, 1)
+		}
+		if list[1].time > list[2].time {
+			list.Swap(1, 2)
+		}
+	} else {
+		// Sort by time
+		sort.Sort(list)
+	}
 
 	// Get values from the middle item in the list.
 	result := list[count/2]
